@@ -89,17 +89,16 @@ def rulesOp (prof rule : String) (s : List Nat) : String :=
   | _, _ => na
 
 def stabilizeOp (start table : String) : String :=
+  -- state i is the string "a" repeated i+1 times (see harness/src/ops.rs)
   let tab := ((table.splitOn " ").filter (· ≠ "")).toArray
+  let st (i : Nat) : List Nat := List.replicate (i + 1) 0x61
   let f : List Nat → Res (List Nat) := fun s =>
-    match s with
-    | [c] =>
-      match tab[c - 0x61]? with
-      | some "E" => .err .profileRuleNA
-      | some "I" => .err .invalid
-      | some t => .ok [0x61 + t.toNat!]
-      | none => .panic
-    | _ => .panic
-  let (r, tr) := stabilizeTrace f stabilizeRounds [0x61 + start.toNat!] []
+    match tab[s.length - 1]? with
+    | some "E" => .err .profileRuleNA
+    | some "I" => .err .invalid
+    | some t => .ok (st t.toNat!)
+    | none => .panic
+  let (r, tr) := stabilizeTrace f stabilizeRounds (st start.toNat!) []
   fmtRes r ++ ";calls=" ++ ",".intercalate (tr.map fmtStr)
 
 def csvPropName : Csv.Prop7 → String
@@ -253,6 +252,12 @@ def evalFn (name : String) (cp : Nat) : Option String :=
   | "spec_hasrtl1" => if sc then some (bS (Spec.isRtlTrigger (Spec.bidi16 cp))) else none
   | "spec_dir_a1" => if sc then some (match Spec.specDirectionality Spec.bidi16 [0x61, cp] with | .ok _ => "ok" | _ => "err") else none
   | "spec_dir_1" => if sc then some (match Spec.specDirectionality Spec.bidi16 [cp] with | .ok _ => "ok" | _ => "err") else none
+  | "opmap_after" => if sc then some (match opaqueAdditionalMappingRule [0xA0, cp, 0x62] with
+      | .ok t => " ".intercalate (t.map (fun x => if x == cp then "c" else hex4 x)) | _ => "err") else none
+  | "nickmap_mid" => if sc then some (match trimSpaces [0x61, cp, 0x62] with
+      | .ok t => " ".intercalate (t.map (fun x => if x == cp then "c" else hex4 x)) | _ => "err") else none
+  | "spec_opmap_after" => if sc then some (" ".intercalate ((Spec.specOpaqueMap [0xA0, cp, 0x62]).map (fun x => if x == cp then "c" else hex4 x))) else none
+  | "spec_nickmap_mid" => if sc then some (" ".intercalate ((Spec.specSpaces [0x61, cp, 0x62]).map (fun x => if x == cp then "c" else hex4 x))) else none
   | "zs" => if sc then some (bS (isSpaceSeparator cp)) else none
   | "nonascii_zs" => if sc then some (bS (isNonAsciiSpace cp)) else none
   | "std_upper" => if sc then some (bS (isUppercase cp)) else none
